@@ -46,7 +46,9 @@ class Job:
     """One solver obligation = one Kani harness instance."""
 
     def __init__(self, crate, harness, timeout=600, expect="pass", params=None, group="", unwindset=None,
-                 allow_uncovered=(), note="", cbmc_args=None, weight=1):
+                 allow_uncovered=(), note="", cbmc_args=None, weight=1, kind="kani", smt=None):
+        self.kind = kind              # "kani" (CBMC on the compiled code) | "smt" (integer side obligation on an oracle)
+        self.smt = smt
         self.crate = crate            # "h263" | "yuv" | "deblock"
         self.harness = harness        # function name (unique)
         self.timeout = timeout
@@ -369,10 +371,10 @@ class Runner:
     def codegen(self, jobs):
         """returns None or an error text"""
         idx = self.scratch.harness_index
-        for crate in sorted(set(j.crate for j in jobs)):
+        for crate in sorted(set(j.crate for j in jobs if j.kind == "kani")):
             names = []
             for j in jobs:
-                if j.crate == crate:
+                if j.crate == crate and j.kind == "kani":
                     if j.harness not in idx:
                         return "harness %s is not defined in /verif/harness" % j.harness
                     names.append(idx[j.harness][1].replace("crate::", "", 1))
@@ -402,7 +404,7 @@ class Runner:
                 short = h["pretty_name"].rsplit("::", 1)[-1]
                 self.meta[short] = {"mangled": h["mangled_name"], "unwind": h["attributes"].get("unwind_value"),
                                     "symtab": h["goto_file"], "stubs": h["attributes"].get("stubs", [])}
-        missing = [j.harness for j in jobs if j.harness not in self.meta]
+        missing = [j.harness for j in jobs if j.kind == "kani" and j.harness not in self.meta]
         if missing:
             return "harnesses missing from Kani metadata: " + ", ".join(missing[:5])
         return None
@@ -412,7 +414,26 @@ class Runner:
             self.tls.slot = self.scratch.new_slot()
         return self.tls.slot
 
+    def run_smt(self, job):
+        from vf import smt
+        res = Result(job)
+        t0 = time.time()
+        verdict, detail = smt.decide(job.smt, job.timeout)
+        res.wall = time.time() - t0
+        res.solver_s = detail.get("z3_s", 0) + detail.get("cvc5_s", 0)
+        res.n_checks = 1
+        self.save_log(job.harness, job.smt + "\n; " + json.dumps(detail))
+        if verdict == "unsat":
+            res.status = "pass"
+            res.covers = {"smt: negated claim unsat in z3 and cvc5": "SATISFIED"}
+        else:
+            # a satisfiable oracle obligation means the harness oracle (not /repo) is wrong: never a violation
+            res.status, res.reason = "inconclusive", "oracle side obligation not discharged: %s %s" % (verdict, json.dumps(detail)[:300])
+        return res
+
     def run(self, job):
+        if job.kind == "smt":
+            return self.run_smt(job)
         res = Result(job)
         t0 = time.time()
         m = self.meta[job.harness]
